@@ -3,6 +3,7 @@ import Mp4ff.Expect.Facts
 import Mp4ff.Lemmas.LayoutThms
 import Mp4ff.Props.C01b
 import Mp4ff.Expect.Transcribed
+import Mp4ff.Props.C01c
 /-!
 # C01 — decode then encode is lossless outside reserved fields, and a fixed point
 Property theorems (proofs in `Mp4ff/Lemmas/LayoutThms.lean`).  The generic theorems hold for EVERY layout term
